@@ -913,6 +913,10 @@ func run(seed int64, n int, dir string, _ []string) {
 		}
 		// the session flags: the same functions under --strict-equal / without it over pools of loosely equal twins
 		flagCases(g, o, pr, cpu, 5)
+		// analytic functions inside correlated sub-queries: the argument / clause refers to the outer query's row
+		for k := 0; k < 3; k++ {
+			corrCases(g, o, pr, cpu)
+		}
 		pr.DisposeTable("t")
 	}
 }
